@@ -701,6 +701,28 @@ def _basis(ctx, cases, oracle_only=False):
                 k, i = [int(v) for v in np.argwhere(bad)[0]]
                 ctx.violate('basis:%s:value' % c['func'], 'row %d at x=%r: %r, textbook %r' % (k, c['x'][i], got[k, i], want[k, i]),
                             dict(c, x=[c['x'][i]], form=c['form']))
+        if c['form'] == 'array' and len(c['x']) >= 2:
+            # history: the caller's abscissa array changed IN PLACE between two calls with the same order (a work buffer that is
+            # refilled, `x *= 0.5`): the second answer belongs to the present contents (seeded change C13-19: a last-call memo that
+            # keeps the array by reference)
+            from pydl.pydlutils.trace import fchebyshev, fchebyshev_split, fpoly
+            from pydl.goddard.math import flegendre
+            f = {'legendre': flegendre, 'chebyshev': fchebyshev, 'chebyshev_split': fchebyshev_split, 'poly': fpoly}[c['func']]
+            try:
+                # the reference first, on its own array object, before the work buffer exists (a memo that holds the buffer would
+                # answer a later fresh array with the same values from the stale entry as well)
+                fresh = np.array(f(np.array(c['x'], dtype='d') * 0.5, c['m']), dtype='d')
+                buf = np.array(c['x'], dtype='d')
+                f(buf, c['m'])
+                buf *= 0.5
+                second = np.array(f(buf, c['m']), dtype='d')
+                ctx.count('basis:history:array-changed-in-place')
+                if second.shape != fresh.shape or not np.array_equal(second, fresh, equal_nan=True):
+                    ctx.violate('basis:%s:history' % c['func'],
+                                'after `x *= 0.5` on the same array object the basis is not the one of a fresh array with the same values',
+                                dict(c, history='x *= 0.5 between two calls'))
+            except Exception as e:
+                ctx.violate('basis:%s:history-exception' % c['func'], 'second call on the array changed in place raises %r' % (e,), c)
         if c['form'] not in ('array', 'intarray'):
             arr = _impl_basis(dict(c, form='array'))
             if arr != impl and not (('ok' in arr) and same_list(flat(arr['ok']), flat(impl['ok']))):
